@@ -95,6 +95,8 @@ AUDITED_LOOPS = {
                                             'so NaN exits'),
     NS + 'DMS::Decode': (1, 'p advances to pb = find_first_of(signs, pa+1) > p or to end on every iteration'),
     NS + 'GeoCoords::Reset': (1, 'pos0 = find_first_of(spaces, pos1) with pos1 >= pos0 a non-space: strictly increasing or npos'),
+    NS + 'NearestNeighbor::Search': (1, 'worklist over a tree: every queued child index is smaller than its parent index '
+                                        '(post-order build in init; Load() rejects child >= own index), so the queue drains'),
     NS + 'Intersect::AllInt0': (1, 'sa grows by one conjugate-point spacing (> 0) per trip until the distance exceeds '
                                    'maxdistx; NaN makes the test false'),
 }
